@@ -147,6 +147,12 @@ def run(ctx):
     # re-charge a key whose delete was acknowledged
     from weight import accounting_flow
     accounting_flow(ctx, M, "R04.7")
+    # R04.9 (= R05.3): the worker's Delete removes *by key*; if a put could overwrite an entry that is still in the store
+    # (e.g. one only hidden by delete() whose Delete command is queued behind that put), the later Delete removes the new
+    # incarnation and the hidden one's weight is never released although its delete is acknowledged Accepted
+    for o in ctx.own_of("c05"):
+        if o["rule"] == "R05.3":
+            ctx._add(o["status"], "R04.9", o["key"].split("|", 1)[1], o["desc"] + " [an acknowledged delete must release the weight of the entry it hid]", o["where"], o["detail"])
     # release == R05.2 (id from the removed entry)
     import c05
     for o in ctx.own_of("c05"):
